@@ -41,7 +41,7 @@ def run_p(seed, tier, replay=None):
 
 
 def run(seed, tier, replay=None):
-    r = mix.merge(run_p(seed, tier, replay), mix.check([mix.mon_concurrency], seed, tier))
+    r = mix.merge(run_p(seed, tier, replay), mix.check([mix.mon_concurrency, mix.mon_least_free], seed, tier))
     # "slots are passed in NEXTEST_TEST_GLOBAL_SLOT / NEXTEST_TEST_GROUP / NEXTEST_TEST_GROUP_SLOT": also when setup scripts write
     # look-alike keys (family scr; only the slot-variable monitor counts here)
     from props import scr
